@@ -5,6 +5,7 @@ mod faulty;
 mod group;
 mod keyspace;
 mod model;
+mod restart;
 mod storage;
 mod storage_random;
 mod transfer;
@@ -29,6 +30,7 @@ fn main() {
         "record-consistency" => rt.block_on(consistency::record()),
         "record-converge" => rt.block_on(consistency::record_converge()),
         "replay-transfer" => rt.block_on(transfer::replay()),
+        "restart-backends" => rt.block_on(restart::run()),
         "transfer-garbage" => rt.block_on(transfer::garbage()),
         other => {
             eprintln!("unknown command {other:?}");
